@@ -93,7 +93,7 @@ def dict_unit(res):
     """Pb: Frontend.full_analysis_dict (real code), 2-line kernels with symbolic numbers on a 3-port model: every per-line
     field of the machine-readable output is the corresponding attribute of the line (pressure per port NAME in port order,
     latency, CP / LCD contribution, throughput, latency without load, micro-ops of the selected alternative), the summary
-    carries the per-port totals (get_throughput_sum; the first line's pressure if that is empty), the sum of the CP
+    carries the per-port totals (get_throughput_sum; zeros if no line carries throughput), the sum of the CP
     contributions of the critical-path lines and the maximum LCD latency; warnings list = the flags given (+ unknown-instruction
     warning iff some line carries tp_unknown); target = upper-cased arch and the model's ports."""
     FE_FILES = ["osaca/parser/instruction_form.py", "osaca/semantics/isa_semantics.py", "osaca/semantics/arch_semantics.py", FE]
@@ -147,7 +147,7 @@ def dict_unit(res):
                         want_u = [[1, "01"]] if i == 0 else [[1, "0"]]
                         g.append(z3.BoolVal([(u["Cycles"], u["Ports"]) for u in r["PortUops"]] == [(c, list(ps)) for c, ps in want_u]))
                     sm = v["Summary"]
-                    tot = PP[0] if totals_empty else TS
+                    tot = [z3.RealVal(0)] * len(ports) if totals_empty else TS  # nothing to sum up: a line of 0s
                     g.append(z3.BoolVal(list(sm["PortPressure"].keys()) == ports))
                     g += [real_term(sm["PortPressure"][ports[j]]) == tot[j] for j in range(len(ports))]
                     g.append(real_term(sm["CriticalPath"]) == sum([V["cp"][i] for i in cpset], z3.RealVal(0)))
@@ -182,5 +182,5 @@ def units(tier):
         Unit("C13/full_analysis_dict(fields = line attributes, summary = totals)", dict_unit, "Pb", [(FE, "Frontend.full_analysis_dict"), (FE, "Frontend._selected_port_uops")], decisive=False),
         Unit("C13/inspect/warning-flags-and-report-wiring", _inspect_unit(), "P", [(OS, "inspect")], decisive=False),
         bounded_unit("C13/report-vs-dict", "c13_report", [(FE, "Frontend.combined_view"), (FE, "Frontend.full_analysis_dict"), (FE, "Frontend.loopcarried_dependencies"),
-                     (FE, "Frontend._get_port_pressure"), (FE, "Frontend._get_lcd_cp_ports"), (OS, "inspect")], extra_args=["C13"], timeout=2400, decisive=True),
+                     (FE, "Frontend._get_port_pressure"), (FE, "Frontend._get_lcd_cp_ports"), (OS, "inspect")], extra_args=["C13"], timeout=(7000 if tier == "thorough" else 2400), decisive=True),
     ]
